@@ -84,7 +84,11 @@ def prefer_place(cfg, p):
     if (h % 1000) < int(p * 1000):
         for k in ("d", "p", "q", "site_mod", "max_hold", "est", "calibrate"):
             cfg.pop(k, None)
-        cfg.update({"strategy": "place", "kmax": (25, 80)[(h >> 12) & 1], "line_q": 1.0, "line": True})
+        if (h >> 16) % 3 == 0:
+            # a third thread may be the one that has to be caught in its window: dense site-directed
+            cfg.update({"strategy": "site", "site_mod": 15, "line_q": 1.0, "line": True})
+        else:
+            cfg.update({"strategy": "place", "kmax": (25, 80)[(h >> 12) & 1], "line_q": 1.0, "line": True})
     return cfg
 
 
